@@ -1,5 +1,5 @@
 import NomtModel.Core.TriePosReach
-import NomtModel.Api.PageRegionLemmas
+import NomtModel.Api.ShardRegionsTable
 import NomtModel.Store.ImgMerkleAddr
 import NomtModel.Store.PageLayoutLemmas
 import NomtModel.Generated.Constants
@@ -178,6 +178,11 @@ theorem T2_child_node_indices (p : Pos) (h : Reach p) (hd : p.depth < 256) :
     rw [hq0] at hq; injection hq with hq; subst hq
     rw [hqi, specIndex_single_page_start _ _ (by rw [hl]; exact h6)]
     cases b <;> rfl
+
+/-- **T2.first_layer** `is_first_layer_in_page()` (the fast path `node_index & !1 == 0`) is true exactly for positions on
+the first layer of their page (`depth ≡ 1 mod 6`) — and, a quirk of the encoding, at the root (`node_index = 0`). -/
+theorem T2_first_layer (p : Pos) (h : Reach p) :
+    p.isFirstLayerInPage = true ↔ p.depth = 0 ∨ p.depth % 6 = 1 := wf_isFirstLayer p h.wf
 
 /-- **T2.page_slot_injective** two reachable positions below the root that share page id and node index have the
 same path: two different trie positions never share a page slot. -/
